@@ -79,6 +79,21 @@ Theorem C06_detect_session : forall p addr pdu lo hi rest chunks fi,
 Proof. exact rtu_detect_session. Qed.
 Print Assumptions C06_detect_session.
 
+(* C06_detect and C06_detect_session in one statement: a VALID frame hit by a length-preserving
+   error pattern of one of the classes (single bit, double bit, burst <= 16 - anywhere, address and
+   trailer included) is rejected with CrcValidationFailure and nothing is delivered, whatever
+   follows it and however the bytes are cut into reads. *)
+Theorem C06_corrupted_frame_rejected : forall p addr pdu lo hi ea epdu elo ehi rest chunks fi,
+  bytes (addr :: pdu ++ [lo; hi]) -> bytes (ea :: epdu ++ [elo; ehi]) -> bytes rest -> length epdu = length pdu ->
+  (lo + 256 * hi)%N = crc (addr :: pdu) ->
+  err_class (bits_of (ea :: epdu ++ [elo; ehi])) ->
+  delimited (role_of p) (xor_bytes pdu epdu) -> length pdu <= 253 ->
+  concat chunks = xor_bytes (addr :: pdu ++ [lo; hi]) (ea :: epdu ++ [elo; ehi]) ++ rest -> Forall (fun c => c <> []) chunks ->
+  exists received expected, received <> expected /\
+    run_session (kind_of p) false chunks fi = ([], EndBad (CrcValidationFailure received expected)).
+Proof. exact rtu_corrupted_frame_rejected. Qed.
+Print Assumptions C06_corrupted_frame_rejected.
+
 (* the gate is not vacuous: a delimited frame with the right CRC is delivered *)
 Theorem C06_accept : forall p addr pdu chunks fi,
   bytes (rtu_frame_of addr pdu) -> delimited (role_of p) pdu -> length pdu <= 253 ->
